@@ -356,6 +356,14 @@ def specs(tier):
             {"id": "j", "kind": "FromExpr", "name": "s1", "expr": ["start", "t1"]}],
             objectives=[{"kind": "MaximizeIndicator", "indicator": "i", "weight": w1},
                         {"kind": "MaximizeIndicator", "indicator": "j", "weight": w2}])))
+    # objectives given a task LIST that is a strict subset of the tasks, an unlisted task pulling the other way
+    t3l = lambda: [fam.fx("t0", 2), fam.fx("t1", 1), fam.fx("t2", 1)]  # noqa
+    for okind, pin in (("StartLatest", {"id": "p", "kind": "TaskStartAt", "task": "t2", "value": 0}),
+                       ("GreatestStart", {"id": "p", "kind": "TaskStartAt", "task": "t2", "value": 5}),
+                       ("Flowtime", {"id": "p", "kind": "TaskStartAt", "task": "t2", "value": 0})):
+        for lst in (["t0", "t1"], ["t1"]):
+            out.append((f"{okind}.listed.{len(lst)}", fam.base(6, t3l(), workers=W, requirements=on, constraints=[pin],
+                                                             objectives=[{"kind": okind, "tasks": lst}])))
     # three weighted objectives, the third pulling against the first two (dropping it changes the optimum)
     for w in ((1, 1, 3), (2, 1, 1)):
         out.append((f"weighted3.min.{'.'.join(map(str, w))}", fam.base(6, [fam.fx("t0", 2), fam.fx("t1", 1)], workers=W,
